@@ -145,9 +145,16 @@ func resolveGen(c *core.Ctx) func(yield func(resolveCase) bool) {
 				for _, qa := range qualArgs {
 					ps, pl := qField{Kind: "single", Qual: qa, Ptr: tk}, qField{Kind: "slice", Qual: qa, Ptr: tk}
 					is := qField{Kind: "single", Qual: qa}
-					for _, fs := range [][]qField{{ps, pl}, {is, ps}, {qField{Kind: "single", Qual: qa, Ptr: tk, Opt: true}, pl}} {
-						if !yield(resolveCase{Pop: pop, Fields: fs, Family: "e"}) {
-							return
+					// once with custom names that sort after the default names, once with names that sort before
+					early := append([]scen.QProv{}, pop...)
+					for i := range early {
+						early[i].First = early[i].Named
+					}
+					for _, pp := range [][]scen.QProv{pop, early} {
+						for _, fs := range [][]qField{{ps, pl}, {is, ps}, {qField{Kind: "single", Qual: qa, Ptr: tk, Opt: true}, pl}} {
+							if !yield(resolveCase{Pop: pp, Fields: fs, Family: "e"}) {
+								return
+							}
 						}
 					}
 				}
